@@ -17,7 +17,7 @@
                 with whitespace between them in the source
      "may"      anything else (whitespace existed but need not be kept; or a control-flow / component
                 boundary lies between the two tokens)                                                  *)
-EXTENDS Integers, Sequences, TLC, Json
+EXTENDS Integers, Sequences, FiniteSets, TLC, Json
 
 CONSTANTS
     MaxNodes,      \* node budget of one template body
@@ -133,7 +133,8 @@ Opens ==
     {Frame("callb", [comp |-> "wrap"], "v")}
 
 \* `} else if c {` and `} else {` : the branch built so far is stored, a new one starts
-ElseIf(c) == /\ ~done /\ Top.k = "if" /\ Top.h.c # "else" /\ Len(Top.parts) < 1
+\* (a chain has at most one arm per condition id: with two conditions one else-if, with three two)
+ElseIf(c) == /\ ~done /\ Top.k = "if" /\ Top.h.c # "else" /\ Len(Top.parts) < Cardinality(Conds) - 1
              /\ WsBefore(Top) = "v"
              /\ "elif" \in Kinds
              /\ stack' = [stack EXCEPT ![Len(stack)] =
